@@ -1056,8 +1056,20 @@ decl(struct scope *s, struct func *f)
 		if (sc & SCREGISTER)
 			error(&tok.loc, "external declaration must not contain 'register'");
 	}
-	if (consume(TSEMICOLON)) {
-		/* XXX 6.7p2 error unless in function parameter/struct/union, or tag/enum members are declared */
+	if (tok.kind == TSEMICOLON) {
+		/* 6.7p2: a declaration without declarators must declare a tag or the members of an enumeration */
+		switch (base.type->kind) {
+		case TYPESTRUCT:
+		case TYPEUNION:
+			if (base.type->u.structunion.tag)
+				break;
+			/* fallthrough */
+		default:
+			error(&tok.loc, "declaration does not declare anything");
+		case TYPEENUM:
+			break;
+		}
+		next();
 		return true;
 	}
 	for (;;) {
